@@ -190,11 +190,13 @@ class ClassProfiler(object):
 
     def _iteration_remove_empty_shapes(self, target_shapes):
         for a_shape_label_key in self._classes_shape_dict:
-            for a_prop_key in self._classes_shape_dict[a_shape_label_key]:
-                # print(self._classes_shape_dict[a_shape_label_key][a_prop_key])
-                for a_shape_to_remove in target_shapes:
-                    if a_shape_to_remove in self._classes_shape_dict[a_shape_label_key][a_prop_key]:
-                        del self._classes_shape_dict[a_shape_label_key][a_prop_key][a_shape_to_remove]
+            shape_features = self._classes_shape_dict[a_shape_label_key]
+            # With inverse_paths, each entry is a (direct features, inverse features) tuple of dicts
+            for a_features_dict in (shape_features if type(shape_features) == tuple else (shape_features,)):
+                for a_prop_key in a_features_dict:
+                    for a_shape_to_remove in target_shapes:
+                        if a_shape_to_remove in a_features_dict[a_prop_key]:
+                            del a_features_dict[a_prop_key][a_shape_to_remove]
         for a_shape_to_remove in target_shapes:
             if a_shape_to_remove in self._classes_shape_dict:
                 del self._classes_shape_dict[a_shape_to_remove]
